@@ -120,7 +120,7 @@ func waitArrival() (arrival, bool) {
 }
 
 // mkTemp creates the cache's parent directory. The quick tier keeps it on tmpfs when there is one (the shared disk of the
-// build machine makes rename/open latencies dominate the run time); the thorough tier alternates with the default
+// build machine makes rename/open latencies dominate the run time); the thorough tier puts every fourth one into the default
 // temporary directory, so that a disk file system is exercised as well.
 var (
 	tmpCount int
@@ -130,7 +130,7 @@ var (
 func mkTemp(prefix string) string {
 	base := ""
 	tmpCount++
-	if st, err := os.Stat("/dev/shm"); err == nil && st.IsDir() && !(onDisk && tmpCount%2 == 0) {
+	if st, err := os.Stat("/dev/shm"); err == nil && st.IsDir() && !(onDisk && tmpCount%4 == 0) {
 		base = "/dev/shm"
 	}
 	dir, err := os.MkdirTemp(base, prefix)
